@@ -42,13 +42,14 @@ func checkC08(w *World, r *Report) {
 
 func stageResult(w *World, r *Report, rule string) {
 	s := w.FuncByName("taskctl", "(*Scheduler).Schedule")
-	if s == nil || len(s.AnonFuncs) == 0 {
+	if s == nil {
 		r.Undecided(rule, "stage goroutine", "-", "not found")
 		return
 	}
 	st, _ := statusConsts(w)
 	var cl *ssa.Function
-	for _, a := range s.AnonFuncs {
+	stageFns, _ := stageGoroutines(s)
+	for _, a := range stageFns {
 		if len(findCalls(a, func(n string, _ *ssa.CallCommon) bool { return strings.HasSuffix(n, "Scheduler).runStage") })) > 0 {
 			cl = a
 		}
@@ -85,7 +86,9 @@ func stageResult(w *World, r *Report, rule string) {
 				fmt.Sscan(e.Val[strings.LastIndex(e.Val, ",")+1:], &v)
 				statuses = append(statuses, v)
 			}
-			if e.Kind == "store" && e.Target == "local:lastErr" && strings.Contains(e.Val, "runStage(") {
+			// the result variable of the scheduling function: captured by the closure, or
+			// reached through a pointer parameter of a stage method
+			if e.Kind == "store" && (strings.HasPrefix(e.Target, "local:") || strings.HasPrefix(e.Target, "*arg")) && strings.Contains(e.Val, "runStage(") {
 				recorded = true
 			}
 		}
